@@ -208,6 +208,44 @@ def dec_value(e):
     return e
 
 
+NESTED_BAD = ["x", b"zz", -1, 1 << 70, 1.5, None, [1]]
+
+
+def _positions(v, prefix=()):
+    out = []
+    if isinstance(v, dict):
+        for k, x in v.items():
+            out += _positions(x, prefix + (k,))
+    elif isinstance(v, list):
+        out.append(("len",) + prefix)
+        for i, x in enumerate(v):
+            out += _positions(x, prefix + (i,))
+    else:
+        out.append(("leaf",) + prefix)
+    return out
+
+
+def _replace(v, pos, f):
+    if not pos:
+        return f(v)
+    if isinstance(v, dict):
+        return {k: (_replace(x, pos[1:], f) if k == pos[0] else x) for k, x in v.items()}
+    return [(_replace(x, pos[1:], f) if i == pos[0] else x) for i, x in enumerate(v)]
+
+
+def corruptions(v):
+    out = []
+    for p in _positions(v)[:12]:
+        kind, pos = p[0], p[1:]
+        if kind == "leaf":
+            for b in NESTED_BAD:
+                out.append(_replace(v, pos, lambda _x, b=b: b))
+        else:
+            out.append(_replace(v, pos, lambda lst: lst[:-1]))
+            out.append(_replace(v, pos, lambda lst: lst + (lst[:1] or [0])))
+    return out
+
+
 def run_term(t, tn, L, r):
     try:
         d = T.mk(t)
@@ -236,6 +274,25 @@ def run_term(t, tn, L, r):
             r.case(nontrivial=(a[0] == "ok" and not vs), outcome="build-" + a[0], validated=1)
             for x in vs:
                 r.violation(x["sig"], x["case"], x["detail"])
+        # ---- every member of a valid value made unbuildable in turn (wrong type, out of range, wrong list length)
+        if not ctxdep or tn == "T4":
+            base_vals = []
+            for v in vals:
+                if ref_build(t, v, kw)[0] == "ok" and isinstance(v, (dict, list)):
+                    base_vals.append(v)
+                if len(base_vals) >= 2:
+                    break
+            for v in base_vals:
+                for v2 in corruptions(v):
+                    key = repr(v2)
+                    if key in seen:
+                        continue
+                    seen.add(key)
+                    r.states += 1
+                    a, vs = cmp_build(t, d, v2, kw, tsig)
+                    r.case(nontrivial=(a[0] == "ok" and not vs), outcome="build-corrupted-" + a[0], validated=1)
+                    for x in vs:
+                        r.violation(x["sig"], x["case"], x["detail"])
         # ---- parse direction
         for data in sigma(L):
             r.states += 1
